@@ -40,6 +40,16 @@ def cases(draw):
     fmt = spec["fmt"]
     if fmt["format"] == "fixed":
         fmt["line_delimiter"] = draw(st.sampled_from(["LF", "CR", "CRLF", "Any", "None"]))
+    if fmt["format"] == "delimited" and draw(st.booleans()):
+        # another dialect, and a free text field whose values contain every character the dialects treat specially
+        delimiter, quote, escape = draw(st.sampled_from(_DIALECTS))
+        if delimiter != "," and (fmt["decimal"] == delimiter or fmt["thousands"] == delimiter):
+            delimiter = "|"
+        fmt["item_delimiter"], fmt["quote_character"], fmt["escape_character"] = delimiter, quote, escape
+        spec["fields"].append({"name": "free_text9", "empty": True, "length": "", "length_items": None, "type": "Text",
+                               "rule": "", "model": {}, "reject": [],
+                               "accept": ["", "plain", "C:\\temp", "it's", 'say "hi"', "a;b", "a|b", "a,b", "\\", "'",
+                                          '"', "\\\\", "''", '""', "a\\'b", 'x\\"']})
     rows = draw(gen_tables.tables(spec, max_rows=8, ragged=True))
     if fmt["format"] == "fixed":
         rows = [[cell.rstrip(" ") for cell in row] for row in rows]
@@ -72,8 +82,22 @@ def _render(spec, accepted):
     return None
 
 
-def _parse_delimited(text):
-    return [row for row in csv.reader(io.StringIO(text, newline=""), delimiter=",", quotechar='"', strict=True)]
+# (item delimiter, quote character, escape character): the documented defaults, then the other documented choices
+_DIALECTS = [(",", '"', '"'), (";", "'", '"'), ("|", '"', "\\"), (",", "'", "\\"), (";", '"', '"'), ("|", "'", '"')]
+
+
+def _parse_delimited(text, fmt=None):
+    """The table in ``text`` according to Python's csv reader set up independently for the CID's dialect."""
+    fmt = fmt or {}
+    delimiter = fmt.get("item_delimiter") or ","
+    quote = fmt.get("quote_character") or '"'
+    escape = fmt.get("escape_character") or '"'
+    if escape == quote:
+        options = {"doublequote": True}
+    else:
+        options = {"doublequote": False, "escapechar": escape}
+    return [row for row in csv.reader(io.StringIO(text, newline=""), delimiter=delimiter, quotechar=quote, strict=True,
+                                      **options)]
 
 
 def check_case(sub, case):
@@ -162,7 +186,7 @@ def check_case(sub, case):
                 return
         else:
             try:
-                parsed = _parse_delimited(content)
+                parsed = _parse_delimited(content, fmt)
             except csv.Error as error:
                 sub.fail("C14|stream-unparsable|%s" % label, case, "stream %r: %s" % (content, error))
                 return
